@@ -308,6 +308,29 @@ def run_shard(shard) -> Result:
                     res.violation('transform-modifies-the-original-vectors', {'matrix': name}, '')
             except Exception as e:  # noqa: BLE001
                 res.violation(f'transform-raise-{type(e).__name__}', {'matrix': name}, str(e))
+        # chains of operations, with optional side calls on the intermediate objects (an object that has been asked for
+        # its normalised form is then transformed, ...): every link must equal the plain numpy model
+        OPS = {'N': None, 'Tshear': MATRICES['shear'], 'Trot': MATRICES['rotation'], 'Tscale': MATRICES['upper-with-scale']}
+        for depth in (1, 2, 3):
+            for chain in itertools.product(OPS, repeat=depth):
+                for side in itertools.product((False, True), repeat=depth):
+                    o, ref = mk_orient(vecs), vecs.copy()
+                    res.evals += 1
+                    try:
+                        for opn, sd in zip(chain, side):
+                            if sd:
+                                o.normalize()  # result discarded
+                                o.transform(MATRICES['diag'])
+                            if opn == 'N':
+                                o, ref = o.normalize(), ref / np.linalg.norm(ref, axis=-1, keepdims=True)
+                            else:
+                                o, ref = o.transform(OPS[opn]), np.einsum('ij,tbj->tbi', OPS[opn], ref)
+                        out = np.asarray(o.vectors)
+                        res.outcome(hash(('chain', chain, np.round(out, 9).tobytes())))
+                        if out.shape != ref.shape or not np.allclose(out, ref, atol=1e-12):
+                            res.violation('operation-chain-differs-from-model', {'chain': list(chain), 'side_calls': list(side)}, f'chain {chain} side calls {side}: got {np.round(out[0], 6).tolist()} expected {np.round(ref[0], 6).tolist()}')
+                    except Exception as e:  # noqa: BLE001
+                        res.violation(f'operation-chain-raise-{type(e).__name__}', {'chain': list(chain), 'side_calls': list(side)}, str(e))
         from gemdat.utils import cartesian_to_spherical
 
         g = np.array([[[x, y, z] for x, y, z in itertools.product((-1.0, 0.0, 0.5, 2.0), repeat=3) if (x, y, z) != (0, 0, 0)]])
@@ -336,6 +359,13 @@ def run_shard(shard) -> Result:
                         res.violation(f'autocorrelation-raise-{type(e).__name__}' + ('-single-frame' if single else ''), case, str(e))
                         continue
                     check_autocorr(v, got, res, case)
+                    if P == 2 and T >= 2:
+                        # the same through the Orientations object (vectors as they are: lengths vary in time)
+                        try:
+                            got_m = mk_orient(v).autocorrelation()
+                            check_autocorr(v, got_m, res, dict(case, through='Orientations.autocorrelation'))
+                        except Exception as e:  # noqa: BLE001
+                            res.violation(f'autocorrelation-raise-{type(e).__name__}', dict(case, through='Orientations.autocorrelation'), str(e))
         res.sample({'autocorrelation_lengths': [shard['lo'], shard['hi']], 'families': ['constant', 'alternating', 'rotating', 'decaying'], 'particles': [1, 2, 3]})
     return res
 
@@ -349,7 +379,7 @@ def replay(case):
 
         v = vector_family(case['family'], case['T'], case['P'])
         try:
-            check_autocorr(v, fft_autocorrelation(v), res, case)
+            check_autocorr(v, mk_orient(v).autocorrelation() if case.get('through') else fft_autocorrelation(v), res, case)
         except Exception as e:  # noqa: BLE001
             single = case['T'] == 1 and isinstance(e, ValueError) and 'FFT data points (0)' in str(e)
             res.violation(f'autocorrelation-raise-{type(e).__name__}' + ('-single-frame' if single else ''), case, str(e))
